@@ -263,6 +263,9 @@ class ebpps_sketch {
     template<typename O>
     void internal_merge(O&& other);
 
+    // takes over a smaller k, downsampling the current sample
+    void reduce_k(uint32_t other_k);
+
     ebpps_sketch(uint32_t k, uint64_t n, double cumulative_wt, double wt_max, double rho,
                  ebpps_sample<T,A>&& sample, const A& allocator = A());
 
